@@ -634,6 +634,78 @@ fn init_read(case: &Value) {
     println!("{}", serde_json::to_string(&out).unwrap());
 }
 
+/// Vehicle registry: a fleet with the given group sizes, the given actors taken into use, then one operation.
+fn registry(case: &Value) {
+    use vrp_core::construction::heuristics::RegistryContext;
+    let _ = std::marker::PhantomData::<RegistryContext>;
+    let groups: Vec<usize> = case["groups"].as_array().unwrap().iter().map(|g| g.as_u64().unwrap() as usize).collect();
+    let mut vehicles = vec![];
+    for (g, size) in groups.iter().enumerate() {
+        for i in 0..*size {
+            let mut dimens = Dimensions::default();
+            dimens.set_vehicle_id(format!("v{g}_{i}"));
+            vehicles.push(Arc::new(Vehicle {
+                profile: Profile::default(),
+                costs: costs(&Value::Null),
+                dimens,
+                details: vec![VehicleDetail {
+                    start: Some(VehiclePlace { location: 0, time: TimeInterval { earliest: Some(0.), latest: None } }),
+                    end: None,
+                }],
+            }));
+        }
+    }
+    let driver = Driver { costs: costs(&Value::Null), dimens: Default::default(), details: vec![] };
+    // group key = the group number encoded in the vehicle id
+    let fleet = Fleet::new(vec![Arc::new(driver)], vehicles, |_| {
+        Box::new(|actor: &Actor| {
+            let id = actor.vehicle.dimens.get_vehicle_id().unwrap();
+            id[1..id.find('_').unwrap()].parse::<usize>().unwrap()
+        })
+    });
+    let id_of = |a: &Arc<Actor>| a.vehicle.dimens.get_vehicle_id().unwrap().clone();
+    let find = |id: &str| fleet.actors.iter().find(|a| a.vehicle.dimens.get_vehicle_id().unwrap() == id).unwrap().clone();
+    let mut reg = Registry::new(&fleet, Arc::new(DefaultRandom::default()));
+    for id in case["in_use"].as_array().unwrap() {
+        reg.use_actor(find(id.as_str().unwrap()).as_ref());
+    }
+    let target = find(case["target"].as_str().unwrap());
+    let mut results = vec![];
+    let mut copy_available: Option<Vec<String>> = None;
+    let mut slice_all: Option<Vec<String>> = None;
+    match case["op"].as_str().unwrap() {
+        "use" => results.push(reg.use_actor(target.as_ref())),
+        "free" => results.push(reg.free_actor(&target)),
+        "use-twice" => {
+            results.push(reg.use_actor(target.as_ref()));
+            results.push(reg.use_actor(target.as_ref()));
+        }
+        "slice" => {
+            let keep: Vec<String> = case["keep"].as_array().unwrap().iter().map(|k| k.as_str().unwrap().to_string()).collect();
+            let mut slice = reg.deep_slice(|actor| keep.contains(actor.vehicle.dimens.get_vehicle_id().unwrap()));
+            let mut all: Vec<String> = slice.all().map(|a| id_of(&a)).collect();
+            all.sort();
+            results.push(slice.use_actor(target.as_ref()));
+            let mut ids: Vec<String> = slice.available().map(|a| id_of(&a)).collect();
+            ids.sort();
+            copy_available = Some(ids);
+            slice_all = Some(all);
+        }
+        "copy" => {
+            let mut copy = reg.deep_copy();
+            results.push(copy.use_actor(target.as_ref()));
+            let mut ids: Vec<String> = copy.available().map(|a| id_of(&a)).collect();
+            ids.sort();
+            copy_available = Some(ids);
+        }
+        _ => {}
+    }
+    let mut available: Vec<String> = reg.available().map(|a| id_of(&a)).collect();
+    available.sort();
+    let next: Vec<Vec<String>> = (0..64).map(|_| reg.next().map(|a| id_of(&a)).collect()).collect();
+    println!("{}", serde_json::to_string(&json!({"results": results, "available": available, "next": next, "copy_available": copy_available, "slice_all": slice_all})).unwrap());
+}
+
 /// `Statistic + Statistic` through the public operator.
 fn statistic_sum(case: &Value) {
     use vrp_pragmatic::format::solution::{Statistic, Timing};
@@ -680,6 +752,9 @@ fn main() {
     }
     if case["kind"] == "init_read" {
         return init_read(&case);
+    }
+    if case["kind"] == "registry" {
+        return registry(&case);
     }
     if case["kind"] == "min_variation" {
         return min_variation(&case);
